@@ -392,9 +392,10 @@ func c01Local(p *Prog, r *Report) {
 	if fn == nil {
 		fatalf("anchor: %s.Receive not found", cl.Obj().Name())
 	}
+	dispatch := clientDispatchFn(p)
 	s.OnBranch = func(st *State, cond ssa.Value, truth bool) {
 		if ex, ok := cond.(*ssa.Extract); ok {
-			if ta, ok := ex.Tuple.(*ssa.TypeAssert); ok && ta.Parent() == fn {
+			if ta, ok := ex.Tuple.(*ssa.TypeAssert); ok && ta.Parent() == dispatch {
 				if truth {
 					st.aux["arm"] = shortType(ta.AssertedType)
 				} else {
@@ -503,6 +504,10 @@ func c01Handoff(p *Prog, r *Report) {
 			okSt := st.clone()
 			if wraps && st.aux["wrapped"] == "req" {
 				okSt.addEff("reprepare")
+				if st.aux["not-a-reprepare"] != "1" {
+					// the matched request may itself be a re-prepare: wrapping it again has no bound
+					okSt.addEff("rewrap")
+				}
 			} else {
 				okSt.addEff("othersend")
 			}
@@ -534,6 +539,23 @@ func c01Handoff(p *Prog, r *Report) {
 		}
 		return nil
 	}
+	// the path has established that the matched request is not itself a re-prepare: a failed
+	// type assertion to the wrapper type, or IsPrepareRequest() answering false
+	s.OnBranch = func(st *State, cond ssa.Value, truth bool) {
+		c, neg := stripNot(cond)
+		want := neg // the fact "is a re-prepare" must be false on this edge
+		isReq := func(v ssa.Value) bool { a := s.eval(st, v); return a.K == avSym && a.S == "req" }
+		switch x := c.(type) {
+		case *ssa.Extract:
+			if ta, ok := x.Tuple.(*ssa.TypeAssert); ok && x.Index == 1 && ta.CommaOk && namedOf(ta.AssertedType) == prepReq && isReq(ta.X) && truth == want {
+				st.aux["not-a-reprepare"] = "1"
+			}
+		case *ssa.Call:
+			if x.Call.IsInvoke() && x.Call.Method.Name() == "IsPrepareRequest" && isReq(x.Call.Value) && truth == want {
+				st.aux["not-a-reprepare"] = "1"
+			}
+		}
+	}
 	outs := s.Run(recv, newState())
 	r.count("sim_states", s.Nodes)
 	r.count("entry_points", 1)
@@ -550,6 +572,9 @@ func c01Handoff(p *Prog, r *Report) {
 			bad = append(bad, "matched request is dropped (neither OnResult nor a registered re-prepare): "+desc)
 		} else if k >= 2 {
 			bad = append(bad, "matched request is delivered more than once: "+desc)
+		}
+		if o.St.eff["rewrap"] > 0 {
+			bad = append(bad, "a matched request that may itself be a re-prepare is wrapped in a new re-prepare (no test that it is not one on this path): a backend that answers the proxy's own PREPARE with UNPREPARED is re-prepared without bound and the original request never gets a response: "+desc)
 		}
 		if o.St.eff["onresult-other"]+o.St.eff["other-callback"]+o.St.eff["othersend"] > 0 {
 			bad = append(bad, "reply delivered to something other than the matched request: "+desc)
